@@ -49,7 +49,6 @@ MinOf(S)    == CHOOSE x \in S : \A y \in S : x <= y
 NamesOf(ps) == {ps[i].n : i \in DOMAIN ps}
 ReqOf(ps)   == {ps[i].n : i \in {j \in DOMAIN ps : ps[j].d = "req"}}
 PosIn(s, x) == LET S == {i \in DOMAIN s : s[i] = x} IN IF S = {} THEN 0 ELSE MinOf(S)
-Filter(s, Keep(_)) == SelectSeq(s, Keep)
 Str(n)      == ToString(n)
 
 NoFwd  == [k |-> "ignore", b |-> 0, hard |-> << >>, q |-> << >>, qop |-> "pop", chain |-> << >>]
@@ -87,10 +86,10 @@ DefIn(P, order, from, what) ==
 (*   [ok |-> FALSE]  some call on the way raises TypeError (unexpected     *)
 (*                   keyword, missing required argument, multiple values   *)
 (*                   for a keyword) or AttributeError (no method m), or    *)
-(*   [ok |-> TRUE, bind |-> {<<name, owner>>}]  where every keyword that   *)
-(*                   the CALLER passed ended up: in a named parameter, or  *)
+(*   [ok |-> TRUE, bind |-> {declaration}]  where every keyword that the   *)
+(*                   CALLER passed ended up: in a named parameter, or      *)
 (*                   taken by name with kwargs.pop/get.  Keywords that die *)
-(*                   in an unused **kwargs dict are in no pair.            *)
+(*                   in an unused **kwargs dict are bound nowhere.         *)
 (***************************************************************************)
 Fail  == [ok |-> FALSE, bind |-> {}]
 Ok(b) == [ok |-> TRUE, bind |-> b]
